@@ -7,7 +7,7 @@ from typing import Any
 
 from xknx import XKNX
 from xknx.core import XknxConnectionState
-from xknx.io.tunnel import TCPTunnel, UDPTunnel
+from xknx.io.tunnel import SecureTunnel, TCPTunnel, UDPTunnel
 from xknx.knxip import (
     ConnectionStateRequest,
     ConnectionStateResponse,
@@ -22,6 +22,7 @@ from xknx.knxip import (
 from ..explore import Chooser, explore, finalize_states, replay_schedule
 from ..runner import Ctx
 from ..sim.gateway import GW_ADDR, Gateway
+from ..sim.secure_gateway import PatchCrypto, SecureServer
 from ..vloop import World
 from .c24 import make_cemi
 
@@ -37,14 +38,54 @@ Q_EVENTS = ["next-timer", "server-disconnect(own-channel)", "server-disconnect(o
 I_EVENTS = ["-", "server-disconnect(own-channel)", "transport-lost"]
 
 
+class SecureGw:
+    """Gateway-shaped front of the simulated secure server: the scenario sees and sends the frames inside the wrappers."""
+
+    def __init__(self, loop: Any) -> None:
+        self.plain = Gateway(loop)  # only used to build ConnectResponse bodies
+        self.srv = SecureServer(loop)
+        self.connect_response = self.plain.connect_response
+
+    @property
+    def tr(self) -> Any:
+        return self.srv.tr
+
+    @property
+    def handler(self) -> Any:
+        return self.srv.inner_handler
+
+    @handler.setter
+    def handler(self, fn: Any) -> None:
+        self.srv.inner_handler = fn
+
+    def send(self, body: Any) -> None:
+        if self.srv.key is not None:
+            self.srv.send(body)
+
+    @property
+    def raw_log(self) -> list[tuple[float, bytes]]:
+        from xknx.knxip import KNXIPFrame
+
+        out = []
+        for t, kind, _seq, body in self.srv.client_writes:
+            out.append((t, KNXIPFrame.init_from_body(body).to_knx() if kind != "bad-wrapper" else bytes(body)))
+        return out
+
+
 def make(kind: str, auto_reconnect: bool, steps: int, iter_injection: bool):
-    tcp = kind == "tcp"
+    tcp = kind in ("tcp", "secure")
 
     def scenario(ch: Chooser) -> list[tuple[str, str]]:
+        if kind == "secure":
+            with PatchCrypto():
+                return _scenario(ch)
+        return _scenario(ch)
+
+    def _scenario(ch: Chooser) -> list[tuple[str, str]]:
         viols: list[tuple[str, str]] = []
         with World() as w:
             loop = w.loop
-            gw = Gateway(loop)
+            gw: Any = SecureGw(loop) if kind == "secure" else Gateway(loop)
             st: dict[str, Any] = {"next_channel": 7, "log": [], "connects": 0, "last_channel": None}
 
             def handler(body: Any) -> None:
@@ -89,8 +130,11 @@ def make(kind: str, auto_reconnect: bool, steps: int, iter_injection: bool):
             xknx = XKNX()
             xknx.connection_manager.register_connection_state_changed_cb(lambda s: cb_logs[0].append(s))
             xknx.connection_manager.register_connection_state_changed_cb(lambda s: cb_logs[1].append(s))
-            if tcp:
-                tunnel: Any = TCPTunnel(xknx, lambda raw: None, gateway_ip=GW_ADDR[0], gateway_port=GW_ADDR[1], auto_reconnect=auto_reconnect, auto_reconnect_wait=3)
+            if kind == "secure":
+                tunnel: Any = SecureTunnel(xknx, lambda raw: None, gateway_ip=GW_ADDR[0], gateway_port=GW_ADDR[1], user_id=2, user_password="secret",
+                                           device_authentication_password="trustme", auto_reconnect=auto_reconnect, auto_reconnect_wait=3)
+            elif tcp:
+                tunnel = TCPTunnel(xknx, lambda raw: None, gateway_ip=GW_ADDR[0], gateway_port=GW_ADDR[1], auto_reconnect=auto_reconnect, auto_reconnect_wait=3)
             else:
                 tunnel = UDPTunnel(xknx, lambda raw: None, gateway_ip=GW_ADDR[0], gateway_port=GW_ADDR[1], local_ip="192.168.1.2", auto_reconnect=auto_reconnect, auto_reconnect_wait=3)
             t0 = w.spawn(tunnel.connect(), name="harness-connect")
@@ -252,6 +296,139 @@ def make(kind: str, auto_reconnect: bool, steps: int, iter_injection: bool):
     return scenario
 
 
+R_EVENTS = ["connect", "connect(OSError)", "disconnect", "send", "busy(100)", "+0.05s", "+1s"]
+
+
+def routing_case(seq: tuple[int, ...], secure: bool) -> list[tuple[str, str]]:
+    """Routing / SecureRouting lifecycle: all sequences of connect / failing connect / disconnect / send / busy frame / time."""
+    from xknx.io.routing import Routing, SecureRouting
+    from xknx.io.transport.udp_transport import UDPTransport
+    from xknx.knxip import KNXIPFrame, RoutingBusy
+
+    class FakeSock:
+        sockname = ("224.0.23.12", 3671)
+
+    viols: list[tuple[str, str]] = []
+    saved_sock = UDPTransport.__dict__["create_multicast_sock"]
+    UDPTransport.create_multicast_sock = staticmethod(lambda own_ip, remote_addr: FakeSock())  # type: ignore[method-assign]
+    try:
+        with World() as w:
+            loop = w.loop
+            loop._vtime = 1000.0  # noqa: SLF001
+            xknx = XKNX()
+            cb_logs: list[list[Any]] = [[], []]
+            xknx.connection_manager.register_connection_state_changed_cb(lambda st: cb_logs[0].append(st))
+            xknx.connection_manager.register_connection_state_changed_cb(lambda st: cb_logs[1].append(st))
+            if secure:
+                r: Any = SecureRouting(xknx, None, lambda raw: None, local_ip="192.168.1.2", backbone_key=bytes(range(16)), latency_ms=1000)
+            else:
+                r = Routing(xknx, None, lambda raw: None, local_ip="192.168.1.2")
+            established = False
+            trace: list[str] = []
+            sends = 0
+            fail = {"on": False}
+            loop.udp_connect_error = lambda: OSError("network unreachable") if fail["on"] else None
+            for ei in seq:
+                ev = R_EVENTS[ei]
+                trace.append(ev)
+                n_frames = sum(len(e.sent) for e in loop.datagram_endpoints)
+                if ev.startswith("connect"):
+                    fail["on"] = ev.endswith("(OSError)")
+                    t = w.spawn(r.connect(), name="harness-connect")
+                    loop.run_until(loop.time() + 5.0)
+                    if not t.done():
+                        viols.append(("routing-connect-hangs", f"trace={trace}"))
+                        break
+                    if t.exception() is None:
+                        established = True
+                    else:
+                        established = False
+                        if not fail["on"]:
+                            viols.append((f"routing-connect-raises:{type(t.exception()).__name__}", f"{t.exception()!r}; trace={trace}"))
+                elif ev == "disconnect":
+                    t = w.spawn(r.disconnect(), name="harness-disconnect")
+                    loop.settle()
+                    if not t.done() or t.exception() is not None:
+                        viols.append(("routing-disconnect-fails", f"{t!r}; trace={trace}"))
+                    established = False
+                elif ev == "send":
+                    async def do_send(i: int) -> None:
+                        try:
+                            await r.send_cemi(make_cemi(i))
+                        except Exception:  # noqa: BLE001
+                            pass
+
+                    w.spawn(do_send(sends), name="harness-send")
+                    sends += 1
+                    loop.settle()
+                elif ev == "busy(100)":
+                    if r.transport.transport is not None and not secure:
+                        r.transport.data_received_callback(KNXIPFrame.init_from_body(RoutingBusy(wait_time=100)).to_knx(), ("192.168.1.77", 3671))
+                else:
+                    loop.run_until(loop.time() + float(ev[1:-1]))
+                loop.settle()
+                state = xknx.connection_manager.state
+                ctxs = f"{'secure ' if secure else ''}routing trace={trace} callbacks={[c.name for c in cb_logs[0]]}"
+                if (state is XknxConnectionState.CONNECTED) != established:
+                    viols.append(("routing-state-differs-from-connection", f"state {state.name}, connection established={established}; {ctxs}"))
+                if cb_logs[0] != cb_logs[1]:
+                    viols.append(("state-callbacks-disagree", ctxs))
+                if any(a == b for a, b in zip(cb_logs[0], cb_logs[0][1:])):
+                    viols.append(("state-callback-repeats-state", ctxs))
+                if cb_logs[0] and cb_logs[0][-1] != state:
+                    viols.append(("callbacks-missed-a-change", ctxs))
+            # after the last event: if disconnected, nothing more is sent and nothing of the connection stays alive
+            before = sum(len(e.sent) + len(e.sent_after_close) for e in loop.datagram_endpoints)
+            loop.run_until(loop.time() + 30.0)
+            after = sum(len(e.sent) + len(e.sent_after_close) for e in loop.datagram_endpoints)
+            ctxs = f"{'secure ' if secure else ''}routing trace={trace}"
+            if not established:
+                if after != before:
+                    viols.append(("routing-sends-while-disconnected", f"{after - before} frames written in the 30 s after the last event; {ctxs}"))
+                alive = [t for t in loop.live_tasks() if not t.get_name().startswith("harness-")]
+                if alive:
+                    viols.append(("routing-task-alive-while-disconnected", f"{[(t.get_name(), getattr(t.get_coro(), '__qualname__', '?')) for t in alive]}; {ctxs}"))
+            for name, exc in loop.task_failures():
+                if not name.startswith("harness-"):
+                    viols.append((f"task-exception:{type(exc).__name__}", f"{name}: {exc!r}; {ctxs}"))
+            for c in loop.exceptions:
+                # a send attempted while not connected fails with CommunicationError inside SecureRouting's timer callback:
+                # nothing reaches the wire, which is what the property asks; other exceptions are reported
+                from xknx.exceptions import CommunicationError
+
+                if not isinstance(c.get("exception"), CommunicationError):
+                    viols.append(("loop-exception", repr(c)[:300] + f"; {ctxs}"))
+    finally:
+        UDPTransport.create_multicast_sock = saved_sock  # type: ignore[method-assign]
+    seen: set[str] = set()
+    return [(a, b) for a, b in viols if not (a in seen or seen.add(a))]
+
+
+def routing_worker(k: int, n: int, depth: int) -> Any:
+    import itertools
+    import logging
+
+    from ..runner import Part
+
+    logging.disable(logging.CRITICAL)
+    part = Part()
+    i = 0
+    for secure in (False, True):
+        for d in range(1, depth + 1):
+            for seq in itertools.product(range(len(R_EVENTS)), repeat=d):
+                i += 1
+                if i % n != k:
+                    continue
+                viols = routing_case(seq, secure)
+                part.evaluations += 1
+                part.traces += 1
+                part.transitions += len(seq)
+                part.outcomes["routing:" + ("violating" if viols else "ok")] += 1
+                for sig, detail in viols:
+                    part.viol(sig, detail, {"scenario": "routing", "seq": list(seq), "secure": secure}, rank=(len(seq), seq))
+    return part
+
+
 SCENARIOS = {"tunnel": make}
 
 
@@ -259,19 +436,25 @@ def run(ctx: Ctx) -> None:
     bound = 3 if ctx.thorough else 2
     steps = 7 if ctx.thorough else 6
     ctx.rule = (
-        f"real UDPTunnel / TCPTunnel (auto-reconnect on/off) connected to a simulated gateway; at each of {steps} quiescent points the environment lets time pass or injects one of "
+        f"real UDPTunnel / TCPTunnel / SecureTunnel (full session handshake against the simulated secure server; auto-reconnect on/off) connected to a simulated gateway; at each of {steps} quiescent points the environment lets time pass or injects one of "
         f"{Q_EVENTS[1:]}; the gateway answers heartbeat {HB_OPTS}, reconnect {CONN_OPTS}, disconnect {DISC_OPTS}, tunnelling {ACK_OPTS}; a second scenario family additionally injects "
         f"{I_EVENTS[1:]} BETWEEN two loop iterations (non-quiescent); every schedule with <= {bound} deviations is executed. Oracle at every iteration boundary: <=1 task in _reconnect, state-change "
-        "callbacks never repeat a state and agree; at quiescent points CONNECTED => channel and transport open; after disconnect() returned: no frame sent, no tunnel task alive, state DISCONNECTED"
+        "callbacks never repeat a state and agree; at quiescent points CONNECTED => channel and transport open; after disconnect() returned: no frame sent, no tunnel task alive, state DISCONNECTED. "
+        f"Plus Routing and SecureRouting: ALL sequences of length <= 4 (thorough 5) over {R_EVENTS}: state CONNECTED exactly while the multicast connection is established, callbacks consistent, nothing sent and no task alive while disconnected"
     )
     ctx.bounds = {"deviation_bound": bound, "quiescent_steps": steps}
     ctx.assumptions = ["the threaded interface (second OS thread) is outside the virtual loop and not covered", "'connected' is judged from what the client can know: channel id and transport present"]
-    for kind in ("udp", "tcp"):
+    for kind in ("udp", "tcp", "secure"):
         for ar in (True, False):
             explore(ctx, __name__, "tunnel", (kind, ar, steps, False), bound=bound)
             explore(ctx, __name__, "tunnel", (kind, ar, 3, True), bound=bound)
+    rdepth = 5 if ctx.thorough else 4
+    ctx.bounds["routing_sequence_depth"] = rdepth
+    ctx.pmap(routing_worker, [(k, 32, rdepth) for k in range(32)])
     finalize_states(ctx)
 
 
 def replay(case: Any) -> list[tuple[str, str]]:
+    if case.get("scenario") == "routing":
+        return routing_case(tuple(case["seq"]), bool(case["secure"]))
     return replay_schedule(__name__, case)
